@@ -17,6 +17,7 @@ struct ModelTraits {
 	bool serialization = false;  // SAVE/LOAD operations are available in this build
 	bool tracked       = true;   // element type reports its moved-from state (Tracked*)
 	bool mpi           = false;  // MSG_PACK / MSG_XFER operations are available in this build
+	bool tracked_is_triv = false;  // the element type is sim::Triv (a struct holding exactly one i64)
 	bool always_equal  = false;  // allocator is_always_equal: one arena only
 	bool ctor_default_inits = false;  // the allocator's construct(p) default-initialises: array(extents) leaves scalar members unwritten
 };
@@ -661,13 +662,29 @@ inline bool plan_effect(Model const& M, ModelTraits const& T, Op const& op, Effe
 		}
 		MView v;
 		if(!model_view(M, T, op.da, op.a, op.ca, v)) return false;
-		if(op.var < 0 || op.var > 2) return false;
+		if(op.var < 0 || op.var > 4) return false;
+		if(op.var >= 3) {  // through reinterpret_array_cast<i64>() / <i64>(1): only for the trivial element type, which is one i64
+			if(!T.trivial || !T.tracked_is_triv || v.count() == 0) return false;
+			var(op.var == 3 ? "reinterpret" : "reinterpret-count");
+		}
 		e.reads_only = true;
 		e.elems      = v.count();
 		e.expect_no_alloc = true;
 		return true;
 	}
 	case O_REF_ASSIGN: {  // array_ref over the storage of array a = array_ref over the storage of array b (flat copy)
+		if(op.var == 4 || op.var == 5) {  // = an array_ref over elements of the convertible type (values op.v, op.v+1, ...), same extents
+			if(!slot_ok(D, op.a, T) || D == 0) return false;
+			MArr const& a0 = M.at(D, op.a);
+			if(!a0.alive || a0.count() == 0) return false;
+			MArr& a = tgt(0, D, op.a);
+			for(std::size_t i = 0; i < a.v.size(); ++i) a.v[i] = op.v + static_cast<i64>(i);
+			e.viewwrite[0] = true;
+			e.elems        = a0.count();
+			e.expect_no_alloc = e.expect_base_unchanged = true;
+			var(op.var == 4 ? "rvalue-dest/converting" : "converting");
+			return true;
+		}
 		if(!slot_ok(D, op.a, T) || !slot_ok(D, op.b, T) || op.a == op.b) return false;
 		MArr const& a0 = M.at(D, op.a);
 		MArr const& b0 = M.at(D, op.b);
@@ -748,11 +765,14 @@ inline bool plan_effect(Model const& M, ModelTraits const& T, Op const& op, Effe
 			if(op.ca.n != 0 || op.da != f.D) return false;
 			if(!slot_ok(op.da, op.a, T) || !M.at(op.da, op.a).alive) return false;
 			MArr const& a0   = M.at(op.da, op.a);
-			bool const  same = dims_equal(a0, f.D, f.n) && f.base == 0;
+			if(op.var < 0 || op.var > 1) return false;
+			if(op.var == 1 && (T.static_arrays || a0.count() == 0 || op.da == 0)) return false;  // var 1: the loading array is re-indexed to base 1 first
+			bool const  same = dims_equal(a0, f.D, f.n) && f.base == (op.var == 1 ? 1 : 0);
 			if(T.static_arrays && !same) return false;
 			MArr& a = tgt(0, op.da, op.a);
 			var(rel_name(a0, f.count(), same));
 			if(f.base) var("reindexed");
+			if(op.var == 1) var("into-reindexed");
 			set_dims(a, f.D, f.n);
 			a.v     = f.v;
 			e.elems = f.count();
